@@ -19,6 +19,13 @@ GROUPS.append(G("pos_GenerateProcessor", "harness/C20/h_as_include.c", "h_Genera
                 object_bits=12, defs=["-DSTRINGSIZE=64"], functions=["GenerateProcessor"]))
 GROUPS.append(G("pos_ReadLnCont", "harness/C13/h_strutil.c", "h_ReadLnCont", enforce=[], link=[], stubs=["stubs/gerr.c"], unwind=8, timeout=600, dfcc=False, drop_unused=True, object_bits=12,
                 defs=["-DVERIF_READLN"], functions=["ReadLnCont"], flags=["--slice-formula"], bounded="logical lines joined from at most 3 physical lines of 0..3 characters each (plus CR/LF, ^Z, continuation)"))
+for lv in (0, 1, 2, 3):
+    for gnu in (0, 1):
+        if lv == 3 and not gnu: continue   # three native levels exhaust the memory budget (14 GB); the composition rule is the same as for two
+        GROUPS.append(G("pos_GetErrorPos_n%d_%s" % (lv, "gnu" if gnu else "native"), "harness/C20/h_as_errpos.c", "h_GetErrorPos", enforce=[], link=["asmdef.c", "strcomp.c", "stringlists.c"], stubs=["stubs/gerr.c"],
+                        unwind=18, timeout=900, dfcc=False, drop_unused=True, object_bits=12, defs=["-DSTRINGSIZE=64", "-DVERIF_LEVELS=%d" % lv, "-DVERIF_GNU=%d" % gnu],
+                        functions=["GetErrorPos", "MACRO_GetPos", "REPT_GetPos", "IRP_GetPos", "INCLUDE_GetPos", "ReallocStr"], flags=["--slice-formula"],
+                        bounded="chain of %d input level(s) of arbitrary kinds (macro, REPT, IRP/IRPN, include file), %s format; each level rendered as a two-character token" % (lv, "-gnuerrors" if gnu else "native")))
 TRUSTED_BASE = ["ghost output channels / exit monitor of h_asmerr.c", "argument-logging stubs of h_as_rept.c"]
 ASSUMPTIONS = ["announcing the numbers of the EXPECT machinery's own messages (2130, 2150, 2160) is excluded"]
 NOT_COVERED = ["GetErrorPos chain concatenation", "MACRO_Processor line counting", "INCLUDE_SearchCore (file search)", "column markers", "-gnuerrors formatting"]
